@@ -733,6 +733,11 @@ class Evaluator:
         if tag(v) == "field" and tag(v[1]) == "downcast":
             x, vn, i = v[1][1], v[1][2], v[2]
             return self._payload(x, vn, i)
+        if tag(v) == "field" and tag(v[1]) == "field":
+            # ((x as Some).0).1: a field of a payload that is itself an aggregate
+            inner = self._simplify(v[1])
+            if inner is not v[1] and inner != v[1]:
+                return self._field(inner, v[2], None)
         return v
 
     def _payload(self, x, vn, i):
@@ -1426,6 +1431,9 @@ class Evaluator:
         if re.search(r"(cmp::Ord::clamp|num::<impl \w+>::clamp|cmp::Ord for \w+>::clamp)$", c) and len(args) == 3 and all(_numeric(a) for a in args):
             # x.clamp(lo, hi) = min(hi, max(lo, x)) (it asserts lo <= hi: data_offset <= cap is an arena invariant, C16-L3)
             return _minmax("min", args[2], _minmax("max", args[1], args[0]))
+        if re.search(r"num::<impl u\w+>::abs_diff$", c) and len(args) == 2:
+            # a.abs_diff(b) = a - b when a >= b, b - a otherwise
+            return ("ite", as_lin(sub(args[0], args[1])), sub(args[0], args[1]), sub(args[1], args[0]))
         if re.search(r"num::<impl u\w+>::saturating_sub$", c):
             return ("satsub", args[0], args[1])
         if re.search(r"num::<impl i\w+>::saturating_(add|sub)$", c):
@@ -1490,10 +1498,19 @@ class Evaluator:
             return ("variant-is", x, want)
         if re.search(r"(Result|Option)::<.*>::(is_ok|is_err|is_some|is_none)$", c):
             x = self._deref_val(args[0])
-            if tag(x) == "variant":
-                truth = {"is_ok": x[2] == "Ok", "is_err": x[2] == "Err", "is_some": x[2] == "Some", "is_none": x[2] == "None"}[short]
-                return const(int(truth))
-            return ("is", short, x)
+
+            def is_of(x, depth=0):
+                if tag(x) == "variant":
+                    truth = {"is_ok": x[2] == "Ok", "is_err": x[2] == "Err", "is_some": x[2] == "Some", "is_none": x[2] == "None"}[short]
+                    return const(int(truth))
+                if tag(x) == "filter" and tag(x[1]) == "variant" and x[1][2] == "Some" and short in ("is_some", "is_none"):
+                    # Some(v).filter(|_| c) is Some exactly when c holds
+                    return x[2] if short == "is_some" else ("not", x[2])
+                if tag(x) == "phi" and len(x) > 4 and x[4] and depth < 3 and all(tag(a) in ("variant", "filter", "phi") for a in x[3]):
+                    # the answer along each incoming edge is the answer for what that edge brings
+                    return ("phi", x[1], ("is", short, x[2]), tuple(is_of(a, depth + 1) for a in x[3])) + tuple(x[4:])
+                return ("is", short, x)
+            return is_of(x)
         if re.search(r"(Result|Option)::<.*>::(unwrap|expect|unwrap_unchecked)$", c):
             x = args[0]
             entry["panics_if"] = ("not-good", x)
@@ -1584,6 +1601,30 @@ class Evaluator:
                 for e_ in self.log[n0:]:
                     e_["foreach"] = nxt
                 return ("tuple", ())
+        if re.search(r"^(std|core)::mem::(replace|take)$", c) and len(args) in (1, 2) and tag(args[0]) == "ref":
+            # mem::replace(&mut place, v): `let old = place; place = v; old` (mem::take: v = the type's default, left symbolic)
+            tgt = args[0][1]
+            new = args[1] if len(args) == 2 else ("call", c.replace("take", "default"), ())
+            if tgt[0] == "heap" and len(tgt) == 3:
+                old = self._heap_read(tgt[1], tuple(tgt[2]), False, None)
+                self._heap_store(frame, bi, None, tgt[1], tuple(tgt[2]), new)
+                return old
+            if tgt[0] == "loc":
+                fr = self.frames[tgt[1]]
+                cur = fr.env.get(tgt[2], ("undef", tgt[1], tgt[2]))
+                old = self._walk_value(cur, tgt[3])
+                fr.env[tgt[2]] = new if not tgt[3] else self._set_path(cur, tuple(tgt[3]), new)
+                return old
+        if re.search(r"bool::<impl bool>::then_some$|<impl bool>::then_some$", c) and len(args) == 2:
+            # c.then_some(v) = Some(v).filter(|_| c)
+            return ("filter", ("variant", "std::option::Option", "Some", (args[1],)), args[0])
+        if re.search(r"<impl bool>::then$", c) and len(args) == 2:
+            fval = self._deref_val(args[1])
+            cb = self.facts.body(fval[1]) if tag(fval) == "closure" else None
+            if cb is not None and self._should_inline(cb, cb.path):
+                entry2 = self._log(frame, bi, None, kind="closure-call", closure=fval, on="true", recv=args[0])
+                pv = self._inline(frame, bi, cb, [fval], entry2, guard=args[0])
+                return ("filter", ("variant", "std::option::Option", "Some", (pv,)), args[0])
         if re.search(r"Option::<.*>::filter$", c) and len(args) == 2:
             # opt.filter(p): Some(x) iff opt is Some(x) and p(&x); represented as ("filter", opt, p(&x)) - its discriminant carries both facts
             recv, fval = args[0], self._deref_val(args[1])
@@ -1909,7 +1950,7 @@ class Evaluator:
                 elif len(vals) == 1:
                     out.append((cond, ("eq", vals[0])))
                 else:
-                    out.append((cond, ("in", tuple(vals))))
+                    out.append((cond, _in_rel(body, t, vals, arms_all)))
         if _depth < 3:
             for cond, rel in list(out):
                 out.extend(self._flag_phi_guards(res, body, cond, rel, _depth))
@@ -1991,7 +2032,7 @@ class Evaluator:
             elif len(vals) == 1 and j != t["otherwise"]:
                 gs.append((cond, ("eq", vals[0])))
             elif len(vals) > 1 and j != t["otherwise"]:
-                gs.append((cond, ("in", tuple(vals))))      # `A | B => ..`: one arm for several values
+                gs.append((cond, _in_rel(body, t, vals, arms_all)))      # `A | B => ..`: one arm for several values
         return gs
 
     def _int_scrutinee(self, body, t, cond):
@@ -2091,6 +2132,17 @@ def _numeric(v):
     return t not in ("struct", "tuple", "variant", "vsum", "ref", "closure", "fn", "payloads", "array")
 
 
+def _in_rel(body, t, vals, arms_all):
+    """relation of an arm shared by several values: when the switch lists every value the scrutinee can have (its `otherwise` is unreachable) and the arm leaves
+    out fewer values than it takes, the arm reads as `not the others` - `A | B => ..` of a three-variant enum is `_ => ..` next to `C => ..`"""
+    ot = t.get("otherwise")
+    if ot is not None and body.blocks[ot]["term"]["k"] == "unreachable":
+        rest = tuple(v for v in arms_all if v not in vals)
+        if rest and len(rest) <= len(vals):
+            return ("ne", rest)
+    return ("in", tuple(vals))
+
+
 def _minmax(which, a, b):
     if is_const(a) and is_const(b):
         return const(max(a.c, b.c) if which == "max" else min(a.c, b.c))
@@ -2180,6 +2232,9 @@ def implied_facts(guards):
             if tag(x) == "filter" and rel in (("eq", 1), ("ne", (0,))):
                 # Some(..) came out of the filter: the receiver was Some and the predicate held
                 facts |= implied_facts([(("discr", x[1]), ("eq", 1)), (x[2], ("eq", 1))])
+            if tag(x) == "filter" and rel in (("eq", 0), ("ne", (1,))) and tag(x[1]) == "variant" and x[1][2] == "Some":
+                # None came out of a filter over a literal Some(..): the predicate failed
+                facts |= implied_facts([(x[2], ("eq", 0))])
             if tag(x) == "call" and x[1].endswith("checked_sub") and (rel[0] == "eq" or rel in (("ne", (0,)), ("ne", (1,)))):
                 some = (rel == ("eq", 1)) or (rel == ("ne", (0,)))
                 if some:
@@ -2207,8 +2262,8 @@ def implied_facts(guards):
                     return ("named", "SENTINEL_SEGMENT_NODE_OFFSET", k_)
                 if tag(half) == "hi" and k_ == 2**32 - 1:
                     return ("named", "SENTINEL_SEGMENT_NODE_SIZE", k_)
-                if tag(half) == "hi" and k_ == 0:
-                    return ("named", "REMOVED_SEGMENT_NODE", k_)
+                if tag(half) in ("hi", "lo") and k_ == 0:
+                    return ("named", "REMOVED_SEGMENT_NODE", k_)      # (the marker is written into either half: a marked size, a removed head offset)
                 return const(k_)
             if rel[0] == "eq":
                 facts |= implied_facts([(("cmp", "Eq", cond, pat(rel[1])), ("eq", 1))])
